@@ -28,6 +28,30 @@ pub struct Block {
     pub(crate) mmap: Arc<SharedMmap>,
 }
 
+/// Checks that an entry header owned by `owned_by` fits into the fixed-size header slot.
+/// The serialized size depends only on the length of the name, not on the other fields.
+pub(crate) fn validate_owner_name(owned_by: &str) -> std::io::Result<()> {
+    let probe = Metadata {
+        read_size: 0,
+        owned_by: owned_by.to_string(),
+        next_block_start: 0,
+        checksum: 0,
+    };
+    let meta_bytes = rkyv::to_bytes::<_, 256>(&probe).map_err(|e| {
+        std::io::Error::new(
+            std::io::ErrorKind::Other,
+            format!("serialize metadata failed: {:?}", e),
+        )
+    })?;
+    if meta_bytes.len() > PREFIX_META_SIZE - 2 {
+        return Err(std::io::Error::new(
+            std::io::ErrorKind::InvalidData,
+            "metadata too large",
+        ));
+    }
+    Ok(())
+}
+
 impl Block {
     pub(crate) fn write(
         &self,
